@@ -199,6 +199,76 @@ func ruleRandomBits(e *Env) {
 			e.S.Bad(rule, flow.FnName(f), "second generator", "draws from a random generator outside RandomID (through "+flow.FnName(g)+"): the IDs built here are not covered by the version/variant evaluation", e.Pos(f), "")
 		}
 	}
+	// … nor does a function of another package of the module that hands out an ID (`fast.NewID() uu.ID`)
+	yieldsID := func(f *ssa.Function) bool {
+		res := f.Signature.Results()
+		for i := 0; i < res.Len(); i++ {
+			t := res.At(i).Type()
+			if p, ok := t.(*types.Pointer); ok {
+				t = p.Elem()
+			}
+			if n, ok := t.(*types.Named); ok && n.Obj().Name() == "ID" && n.Obj().Pkg() == fn.Pkg.Pkg {
+				return true
+			}
+		}
+		return false
+	}
+	for _, f := range flow.SortedFuncs(e.C.AllRepoFuncs()) {
+		if f.Pkg == fn.Pkg || f.Parent() != nil || f.Object() == nil || !f.Object().Exported() || flow.Origin(f) != f || !yieldsID(f) {
+			continue
+		}
+		if g := reach(f); g != nil {
+			e.S.Bad(rule, flow.FnName(f), "second generator", "hands out an ID and draws from a random generator outside RandomID (through "+flow.FnName(g)+"): the IDs built here are not covered by the version/variant evaluation", e.Pos(f), "")
+		}
+	}
+	// … and no generator besides the shared one is created: every constructor of the random packages
+	// (rand.New, rand.NewSource, …) feeds the store into the shared generator and nothing else (a source kept
+	// behind an interface of the module is drawn from by calls this rule cannot tell from any other invoke)
+	shared := e.V("uu", "random")
+	var onlyShared func(v ssa.Value, depth int) bool
+	onlyShared = func(v ssa.Value, depth int) bool {
+		if v.Referrers() == nil || depth > 6 {
+			return false
+		}
+		for _, r := range *v.Referrers() {
+			switch x := r.(type) {
+			case *ssa.DebugRef:
+			case *ssa.Store:
+				if shared == nil || x.Addr != ssa.Value(shared) || x.Val != v {
+					return false
+				}
+			case *ssa.MakeInterface, *ssa.ChangeInterface, *ssa.TypeAssert, *ssa.Extract:
+				if !onlyShared(x.(ssa.Value), depth+1) {
+					return false
+				}
+			case *ssa.Call:
+				g := x.Call.StaticCallee()
+				if g == nil || g.Pkg == nil || !isRandomPkg(g.Pkg.Pkg.Path()) || !strings.HasPrefix(g.Name(), "New") || !onlyShared(x, depth+1) {
+					return false
+				}
+			default:
+				return false
+			}
+		}
+		return true
+	}
+	for _, f := range flow.SortedFuncs(e.C.AllRepoFuncs()) {
+		for _, b := range f.Blocks {
+			for _, in := range b.Instrs {
+				call, ok := in.(*ssa.Call)
+				if !ok {
+					continue
+				}
+				g := call.Call.StaticCallee()
+				if g == nil || g.Pkg == nil || !isRandomPkg(g.Pkg.Pkg.Path()) || !strings.HasPrefix(g.Name(), "New") {
+					continue
+				}
+				if !onlyShared(call, 0) {
+					e.S.Bad(rule, flow.FnName(f), "second generator", "a random generator or source is created ("+g.String()+") that is not the shared one: what draws from it is outside RandomID's evaluation and outside the lock", e.posOf(call), "")
+				}
+			}
+		}
+	}
 	// every (*rand.Rand).Int63() call yields a fresh 63-bit symbol (bit 63 clear, documented by math/rand)
 	draws := 0
 	drawSyms := map[string]bool{}
